@@ -227,6 +227,12 @@ func checkC16(c *checkCtx) {
 				}
 			case KHedge:
 				if canceled {
+					// cancelled on the way: hedges already announced may outnumber nothing - every OnHedge still
+					// belongs to an attempt that was started
+					if got := cnt(LHedge); len(n.Children) > 0 && got > len(n.Children)-1 {
+						c.cov("c16.onhedge_checked_cancelled")
+						fail(v, "hedge", "onhedge-without-hedge", fmt.Sprintf("hedge at position %d (cancelled) started %d hedges but OnHedge fired %d times", n.Pos, len(n.Children)-1, got))
+					}
 					continue
 				}
 				if got := cnt(LHedge); len(n.Children) > 0 && got != len(n.Children)-1 {
